@@ -376,6 +376,9 @@ def Ca.process (s : Ca) : Cmd → Except Err (List Ev)
         -- certauth.rs:1476-1487 (fix 7be8c4c6): a key this CA marked revoked itself - the request is
         -- confirmed, nothing to do; a key the child never used is refused
         if get c.usedKeys ki = some .revoked then .ok [] else .error .noIssuedCert
+      -- certauth.rs:1477-1484 (fix 239f0a59): the key is in use in ANOTHER class than the one named in
+      -- the request - its certificate is not in this class: refused, not confirmed
+      else if get c.usedKeys ki ≠ some (.inUse myRcn) then .error .noIssuedCert
       else .ok [.childKeyRevoked ch myRcn ki, .childCerts myRcn { removed := [ki] }]
   | .childRemove ch =>
     match get s.children ch with
@@ -448,10 +451,11 @@ def Ca.process (s : Ca) : Cmd → Except Err (List Ev)
         | some rc => rc.keys.current.isSome
         | none => false)).map fun u => .products u.1 u.2)
 
-/-- `process` of the tree BEFORE the fixes 7be8c4c6 and 02d8de59 for the two commands they
-changed (counter-models of F-C02-2 / F-C01-3 / F-C08-6 and of F-C02-3 / F-C03-2; says nothing about
-the current tree): a revocation request for a key that is not in use is refused even when this CA
-revoked the key itself, and a class-name mapping is accepted whatever name it gives the child. -/
+/-- `process` of the tree BEFORE the fixes 7be8c4c6, 02d8de59 and 239f0a59 for the two commands
+they changed (counter-models of F-C02-2 / F-C01-3 / F-C08-6, of F-C02-3 / F-C03-2 and of F-C03-3;
+says nothing about the current tree): a revocation request for a key that is not in use is refused
+even when this CA revoked the key itself, a key in use in ANY class is revoked in the class the
+request names, and a class-name mapping is accepted whatever name it gives the child. -/
 def Ca.pinnedProcess (s : Ca) : Cmd → Except Err (List Ev)
   | .childMapping ch n m =>
     match get s.children ch with
